@@ -133,6 +133,19 @@ CLAIMED = {
         "DESIGN.md §5 C11",
         "Fixed source pool; memoised results may turn a fresh StackOverflow into the value a larger limit gives.",
         "TLA+ request-layer model + TLC-enumerated histories replayed + trace validation of outcomes"),
+    "C13": E("model_checking",
+        "spec/Imports.tla: one run of the tool on a directory tree as a state machine (fs with directories, files, "
+        "symlinks; -J list; cache by canonical node; loads; thisFile; evaluator stack) with actions for resolution, "
+        "import/importstr/importbin, cache hit, cycle and failure; TLC checks LoadOnce, CacheDomains, ErrorSite, "
+        "Functional resolution, the Resolve laws (importer directory first, right-most -J wins, absolute bypass) and the "
+        "lossy UTF-8 laws, over all trees of the universe (presence x -J orders x importers x spellings x kinds, "
+        "aliases, cycles, binary content), and emits each terminal behaviour; every scenario is materialised and run "
+        "through the real binary: exit status, manifested value (which file, thisFile, text, bytes), TRACE lines per "
+        "file (= evaluations), error site.",
+        "DESIGN.md §5 C13",
+        "Sources from -e/stdin, symlink loops and permission faults (runs as root) are outside the domain; message texts "
+        "are not compared.",
+        "TLA+ model of resolver/cache model-checked by TLC + replay of every scenario against the real binary", "tlc+cli"),
     "C17": E("model_checking",
         "spec/SortSet.tla defines Sort (unique stable ordered permutation), Uniq, Set, set operations by key, "
         "MinArray/MaxArray declaratively; TLC checks permutation/ordered/stable/idempotence/upstream-definition laws and "
